@@ -25,7 +25,38 @@ PROFILE = P.profile(gens=[1, 2, 2, 3, 4], p_cutoff=0.3, entry_w={"tree": 9, "hms
 def gen(seed, tier):
     pl = P.gen_plan(seed, PROFILE, PROP)
     crossover_only(pl, seed)
+    whole_population_generator(pl, seed)
+    tiny_sea_leaves(pl, seed)
     return pl
+
+
+def whole_population_generator(pl, seed):
+    """A user-defined generator that offers a deme's whole current population (the list object itself), followed by
+    DemeLimit: the built-in filters must not modify what they are handed."""
+    if seed % 7 != 2 or "levels" not in pl or len(pl["levels"]) < 2:
+        return False
+    ll = 2
+    sp = pl["sprout"]
+    if "factory" in sp:
+        ll = int(sp.get("level_limit", 2))
+    else:
+        for f in sp["tree_filters"]:
+            if f["kind"] == "level_limit":
+                ll = int(f["limit"])
+    pl["sprout"] = {"generator": {"kind": "whole_population"},
+                    "deme_filters": [{"kind": "deme_limit", "limit": 1 + seed % 3}],
+                    "tree_filters": [{"kind": "level_limit", "limit": ll}]}
+    return True
+
+
+def tiny_sea_leaves(pl, seed):
+    """(1+1)- / (2+1)-style SEA leaves: population sizes 1-3 are legal for the SEA variants."""
+    if seed % 9 != 4 or "levels" not in pl or len(pl["levels"]) < 2:
+        return
+    l = pl["levels"][-1]
+    if l["engine"] == "ea" and l.get("ea") != "MWEA":
+        l["pop_size"] = 1 + (seed // 9) % 3
+        l["k_elites"] = min(int(l.get("k_elites", 1)), l["pop_size"]) or 1
 
 
 def crossover_only(pl, seed):
